@@ -28,6 +28,7 @@ CATALOGUE = {
     "R16": "a local variable named like a Verus built-in type (`int`, `nat`) is renamed",
     "R17": "the tail expression E of a function becomes `let vx_ret = E; vx_ret`",
     "R18": "`let X = loop { .. break E; .. };` becomes an Option accumulator assigned before a plain `break`",
+    "R19": "the intermediate values of a method chain `let X = a.m1(..).m2(&b.m3()).m4();` are bound to fresh names in evaluation order (receiver, then arguments left to right)",
     "D4": "statement slicing: a floating-point / BigInt / unverifiable tail or binding is replaced by a call of an uncontracted (or explicitly assumed-contract) external function of the same free variables",
 }
 
@@ -857,6 +858,49 @@ def r_any_chain(sig, body, arg):
     return sig, body, n
 
 
+def r_name_chain(sig, body, arg):
+    """R19 NameChain <var>: `let <var> = RECV.m1(A1).m2(A2)...mk(Ak);` (RECV an identifier, every Ai
+    empty or `&IDENT.m()` / `&IDENT`) becomes a sequence of lets, one per call, in evaluation order."""
+    var = arg.strip()
+    m = re.search(r"let\s+%s\s*=\s*(\w+)\s*(?=\.)" % re.escape(var), body)
+    if not m:
+        return sig, body, 0
+    pos = m.end()
+    calls = []
+    while True:
+        mm = re.match(r"\s*\.\s*(\w+)\s*\(", body[pos:])
+        if not mm:
+            break
+        o = pos + mm.end() - 1
+        c = _match_paren(body, o)
+        if c < 0:
+            return sig, body, 0
+        calls.append((mm.group(1), body[o + 1:c].strip()))
+        pos = c + 1
+    mm = re.match(r"\s*;", body[pos:])
+    if not mm or len(calls) < 2:
+        return sig, body, 0
+    end = pos + mm.end()
+    out = []
+    cur = m.group(1)
+    na = 0
+    for k, (meth, a) in enumerate(calls):
+        if a:
+            am = re.match(r"^&\s*(\w+)\s*\.\s*(\w+)\s*\(\s*\)$", a)
+            if am:
+                na += 1
+                out.append("let vx_%s_a%d = %s.%s();" % (var, na, am.group(1), am.group(2)))
+                a = "&vx_%s_a%d" % (var, na)
+            elif not re.match(r"^&?\s*\w+$", a):
+                return sig, body, 0
+        name = var if k == len(calls) - 1 else "vx_%s_c%d" % (var, k + 1)
+        out.append("let %s = %s.%s(%s);" % (name, cur, meth, a))
+        cur = name
+    indent = re.search(r"[ \t]*$", body[:m.start()]).group(0)
+    body = body[:m.start()] + ("\n" + indent).join(out) + body[end:]
+    return sig, body, 1
+
+
 RULES = {
     "Self": r_self,
     "Generic": r_generic,
@@ -890,6 +934,7 @@ RULES = {
     "SliceBinding": r_slice_binding,
     "LoopBreakValue": r_loop_break_value,
     "PolyMap": r_poly_map,
+    "NameChain": r_name_chain,
     "AnyChain": r_any_chain,
 }
 RULE_IDS = {"Self": "R1", "Generic": "R1", "BoolAssign": "R2", "ForUnderscore": "R3",
